@@ -227,6 +227,7 @@ def schemas(prog, ctx):
         ctx.undecided(R, 'Vector::Cross', cr, str(e))
     predicates(prog, ctx)
     submatrix(prog, ctx)
+    block_ctor(prog, ctx)
 
 
 def loops_around(body, target):
@@ -379,3 +380,88 @@ def spellings(prog, ctx):
     got = o.value
     ok = isinstance(got, sp.core.function.AppliedUndef) and got.func.__name__ == L + 'Matrix::Product' and str(got.args[0]) == 'obj:M' and str(got.args[1]) == 's'
     ctx.decide(R, 'operator*(double,Matrix)', fm, ok, 'delegates to M.Product(s)', 'returns %s' % got, form=str(got))
+
+
+def block_ctor(prog, ctx):
+    """Matrix(blocks): the row offset accumulates block heights, the column offset block widths."""
+    R = 'C04.b'
+    fn = prog.fn(L + 'Matrix::Matrix', 1, pred=lambda f: 'Matrix' in f.params[0]['ty'] and f.params[0]['ty'].startswith('std::vector<std::vector'))
+    blocks = fn.params[0]['name']
+    sx = Symx(prog, fn)
+    from ..symx import State
+    st = State({})
+    # which local tables collect heights / widths
+    role = {}
+    for c_ in calls(fn):
+        if c_.get('kind') == 'method' and c_['callee']['name'] == 'push_back' and strip(c_['obj']).get('k') == 'Ref':
+            a0 = strip_casts(c_['args'][0])
+            if a0.get('k') == 'Call' and a0.get('kind') == 'method' and a0['callee']['name'] in ('Rows', 'Columns'):
+                ob = show(a0['obj']).replace(' ', '')
+                tab = strip(c_['obj'])['name']
+                # heights: blocks[row][0].Rows() ; widths: blocks[0][col].Columns()
+                if a0['callee']['name'] == 'Rows' and ob.startswith(blocks + '[') and ob.endswith('][0]'):
+                    role[tab] = 'heights'
+                elif a0['callee']['name'] == 'Columns' and ob.startswith(blocks + '[0]['):
+                    role[tab] = 'widths'
+                else:
+                    role[tab] = 'other:' + show(a0)
+    probs = []
+    if sorted(role.values()) != ['heights', 'widths']:
+        probs.append('height/width tables not recognised: %s' % role)
+    # the element assignment
+    asg = None
+    for e in all_assign(fn):
+        l = strip(e['lhs'])
+        if l.get('k') == 'Index' and strip(l['base']).get('k') == 'Index' and 'components' in show(l):
+            r = show(strip_casts(e['rhs'])).replace(' ', '')
+            if r.startswith(blocks + '['):
+                asg = e
+    offs = {}
+    for s_ in walk_stmts(fn.body):
+        if s_['k'] == 'Decl':
+            for d in s_['decls']:
+                if d.get('init') is not None and any(n.get('k') == 'Call' and (n.get('callee') or {}).get('name') == 'accumulate' for n in walk_expr(d['init'])):
+                    try:
+                        v = sx.sym(d['init'], st)
+                        if isinstance(v, sp.core.function.AppliedUndef) and v.func.__name__ == 'ACCUM':
+                            offs[d['name']] = (str(v.args[0])[4:], v.args[1], str(v.args[2]), v.args[3])
+                    except Undecided:
+                        pass
+    if asg is None:
+        probs.append('element assignment components[..][..] = blocks[r][c][i][j] not found')
+    else:
+        l = strip(asg['lhs'])
+        i_row = show(strip_casts(strip(l['base'])['idx'])).replace(' ', '')
+        i_col = show(strip_casts(l['idx'])).replace(' ', '')
+        rhs = show(strip_casts(asg['rhs'])).replace(' ', '')
+        import re
+        m = re.match(re.escape(blocks) + r'\[(\w+)\]\[(\w+)\]\[(\w+)\]\[(\w+)\]$', rhs)
+        if not m:
+            probs.append('right-hand side is %s' % rhs)
+        else:
+            br, bc, ii, jj = m.groups()
+            for what, sub, inner, blockvar, want in (('row', i_row, ii, br, 'heights'), ('column', i_col, jj, bc, 'widths')):
+                parts = sub.split('+')
+                off = [p_ for p_ in parts if p_ in offs]
+                if len(parts) != 2 or inner not in parts or len(off) != 1:
+                    probs.append('%s subscript is %s, expected <offset>+%s' % (what, sub, inner))
+                    continue
+                tab, lo, hi, init = offs[off[0]]
+                if role.get(tab) != want:
+                    probs.append('the %s offset accumulates `%s` (%s), expected the block %s' % (what, tab, role.get(tab), want))
+                if not (lo == 0 and hi == blockvar and init == 0):
+                    probs.append('the %s offset sums [%s,%s) from %s, expected [0,%s) from 0' % (what, lo, hi, init, blockvar))
+    wrong = [p_ for p_ in probs if p_.startswith('the ')]
+    if probs and not wrong:
+        ctx.undecided(R, 'Matrix(blocks)', fn, 'block constructor outside the understood fragment: ' + '; '.join(probs))
+        return
+    ctx.decide(R, 'Matrix(blocks)', fn, not probs, 'block (r,c) is copied to rows sum(heights[0..r))+i, columns sum(widths[0..c))+j',
+               'block placement is wrong: ' + '; '.join(wrong), witness={'problems': probs} if probs else None)
+
+
+def all_assign(fn):
+    for s in walk_stmts(fn.body):
+        for e in stmt_exprs(s):
+            for n in walk_expr(e):
+                if n['k'] == 'Bin' and n['op'] == '=':
+                    yield n
